@@ -85,6 +85,9 @@ def to_coq(c):
         return "CStart %s %d %s %d %s %s %d" % (
             segs(c.get("input")), obs_err(o), o.get("id") or "0", o.get("typ", 0),
             coq_str(o.get("name", "")), values(o.get("fields")), o.get("alloc", 0))
+    if op == "tread":
+        return "CTRead %d %d %s %d" % (c["buflen"], c["replen"], "true" if o.get("err") == "ok" else "false",
+                                       o.get("n", 0))
     if op == "hread":
         return "CHRead (%s)%%Z %d %s %d %d" % (
             c["maxread"], c["avail"], "true" if o.get("crash") else "false", o.get("n", 0), o.get("code", 0))
@@ -102,6 +105,12 @@ def impl_oracle(c):
         return "decoding %d input bytes allocated %d bytes" % (inlen, o["alloc"])
     if c["op"] == "hread" and o.get("alloc", 0) > 8 * 1024 * 1024:
         return "read request with size %s allocated %d bytes" % (c["maxread"], o["alloc"])
+    if c["op"] == "tread":
+        if o.get("err") == "hang":
+            return "tunnel.Read did not return within 10 s"
+        if o.get("err") == "ok" and o.get("n", 0) > c["buflen"]:
+            return "tunnel.Read returned more bytes than the buffer holds: n=%d for a %d-byte buffer" % (o["n"], c["buflen"])
+        return None
     if c["stream"] in ("prefix",) and o.get("err") == "ok":
         return "truncated frame decoded without error"
     if c["stream"] == "tail" and o.get("err") == "ok":
@@ -121,7 +130,8 @@ def explore(ck, binp, seed, ncases, model_ok, first):
     for c in cases:
         trivial = seglen(c.get("input")) == 0 and c["op"] in ("dec", "start")
         ck.count(c["stream"], key=(c["op"], c.get("name"), json.dumps(c.get("input")),
-                                   json.dumps(c.get("fields")), c.get("cap"), c.get("maxread"), c.get("avail")),
+                                   json.dumps(c.get("fields")), c.get("cap"), c.get("maxread"), c.get("avail"),
+                                   c.get("buflen"), c.get("replen")),
                  trivial=trivial)
         why = impl_oracle(c)
         if why:
